@@ -132,6 +132,7 @@ func RunIntraProcedural(a *AnalyzerState, sm *SummaryGraph) (time.Duration, erro
 	state.moveLocSetsToSummary()
 	// Mark the summary as constructed
 	sm.Constructed = true
+	verifOnSummaryConstructed(a, sm)
 	// If we have errors, return one. This is sufficient to warn the user that the results are incorrect.
 	// TODO: manage error messages for better debugging
 	for _, err := range state.errors {
